@@ -6,11 +6,22 @@ import (
 )
 
 var Checks = map[string]func(*Env) (int, error){
+	"C06": CheckC06,
+	"C12": CheckC12,
+	"C14": CheckC14,
 	"C18": CheckC18,
 }
 
 var Replays = map[string]func(*Env, *ReplayFile) (int, error){
 	"clisim": ReplayC18,
+	"parsim": ReplayParsim,
+}
+
+func getenv(k, def string) string {
+	if v := os.Getenv(k); v != "" {
+		return v
+	}
+	return def
 }
 
 // Setup warms the build cache (standard library with and without the race
@@ -25,8 +36,4 @@ func Setup(e *Env) (int, error) {
 	}
 	fmt.Println("setup ok")
 	return 0, nil
-}
-
-func Selftest(e *Env, args []string) (int, error) {
-	return 2, fmt.Errorf("selftest: not implemented yet")
 }
